@@ -25,6 +25,36 @@ Fixpoint obj_eqf (fuel : nat) (a b : obj) {struct fuel} : bool :=
   | _, _ => false
   end end.
 Definition obj_eqb := obj_eqf 40.
+Fixpoint wobj_eqf (fuel : nat) (a b : wobj) {struct fuel} : bool :=
+  match fuel with O => false | S fuel =>
+  match a, b with
+  | WInt t1 s1 v1, WInt t2 s2 v2 => Z.eqb t1 t2 && Z.eqb s1 s2 && Z.eqb v1 v2
+  | WFloat x, WFloat y => Z.eqb x y
+  | WStr v1 s1 b1, WStr v2 s2 b2 => Bool.eqb v1 v2 && Z.eqb s1 s2 && zl_eqb b1 b2
+  | WOpen o1 k1, WOpen o2 k2 => otype_eqb o1 o2 && list_eqbw (wobj_eqf fuel) k1 k2
+  | WRef x, WRef y => obj_eqf 40 x y
+  | _, _ => false
+  end end.
+(* is w a serialization of o (Schema.ser), as a boolean: used to validate the wire trees the harness computes for calls
+   in which one container object occurs more than once *)
+Fixpoint serf (fuel : nat) (voc : list (list Z)) (o : obj) (w : wobj) {struct fuel} : bool :=
+  match fuel with O => false | S fuel =>
+  match w with
+  | WRef o' => refable o && obj_eqf 40 o o'
+  | _ =>
+    match o, w with
+    | OList l, WOpen OtList ws | OTuple l, WOpen OtTuple ws | OSet l, WOpen OtSet ws | OFset l, WOpen OtFset ws =>
+        (List.length l =? List.length ws)%nat && forallb (fun xw => serf fuel voc (fst xw) (snd xw)) (combine l ws)
+    | ODict ks vs, WOpen OtDict kids =>
+        (List.length kids =? 2 * List.length ks)%nat && (List.length ks =? List.length vs)%nat &&
+        forallb (fun xw => serf fuel voc (fst xw) (snd xw)) (combine (interleave ks vs) kids)
+    | _, _ => atom o && wobj_eqf 40 w (slice voc o)
+    end
+  end end.
+Definition ser_args (voc : list (list Z)) (a : list obj) (kw : list (Z * obj)) (p : list wobj) (k : list (Z * wobj)) : bool :=
+  (List.length a =? List.length p)%nat && forallb (fun xw => serf 40 voc (fst xw) (snd xw)) (combine a p) &&
+  (List.length kw =? List.length k)%nat &&
+  forallb (fun xw => Z.eqb (fst (fst xw)) (fst (snd xw)) && serf 40 voc (snd (fst xw)) (snd (snd xw))) (combine kw k).
 Definition kw_eqb (a b : list (Z * obj)) : bool :=
   list_eqbw (fun x y => Z.eqb (fst x) (fst y) && obj_eqb (snd x) (snd y)) a b.
 Definition ccode (r : cv) (a : list obj) (kw : list (Z * obj)) : Z :=
@@ -90,15 +120,16 @@ def run(ctx):
 
 
 # ---------------------------------------------------------------------------------------------------------------
-def one_call(S, E, argspec, args_vs, kwargs_vs):
+def one_call(S, E, argspec, args_vs, kwargs_vs, vocab=0):
     """argspec: [(name, cs, optional?)]; -> dict(sender_ok, outcome, delivered, ms term, region set)"""
     cons = []
     for n, cs, opt in argspec:
         c = S.build(cs)
         cons.append(S.schema.Optional(c, None) if opt else c)
-    w = S.World([n for n, _, _ in argspec], cons, None)
-    args = tuple(S.to_py(v) for v in args_vs)
-    kwargs = {n: S.to_py(v) for n, v in kwargs_vs}
+    w = S.World([n for n, _, _ in argspec], cons, None, vocab=vocab)
+    memo = {}
+    args = tuple(S.to_py(v, memo) for v in args_vs)
+    kwargs = {n: S.to_py(v, memo) for n, v in kwargs_vs}
     try:
         w.ms.checkAllArgs(args, kwargs, False)
         sender_ok = True
@@ -127,6 +158,7 @@ def one_call(S, E, argspec, args_vs, kwargs_vs):
     else:
         r["outcome"] = "other:%s" % (out,)
     r["ms"] = ms_term(S, w.ms)
+    r["vocab"] = vocab
     return r
 
 
@@ -135,10 +167,10 @@ def judge(ctx, S, tag, argspec, args_vs, kwargs_vs, r):
     reg = set()
     byname = {n: cs for n, cs, _ in argspec}
     for (n, cs, _), v in zip(argspec, args_vs):
-        reg |= S.regions(cs, v)
+        reg |= S.regions(cs, S.canon_vs(v))
     for n, v in kwargs_vs:
         if n in byname:
-            reg |= S.regions(byname[n], v)
+            reg |= S.regions(byname[n], S.canon_vs(v))
     case = dict(argspec=argspec, args=args_vs, kwargs=kwargs_vs)
     want_args = ([S.canon_vs(v) for v in args_vs], sorted([n, S.canon_vs(v)] for n, v in kwargs_vs))
     if r["sender_ok"]:
@@ -203,10 +235,14 @@ FIXED = [
 
 def oracle(ctx, S, E):
     cases = []
+    rng = ctx.rng
 
-    def do(tag, argspec, args_vs, kwargs_vs):
+    def do(tag, argspec, args_vs, kwargs_vs, vocab=None):
+        if vocab is None:
+            vocab = ctx.rng.choice([0, 1, 1])          # both initial vocab tables a negotiated connection can have
+        ctx.hist("vocab_table", vocab)
         try:
-            r = one_call(S, E, argspec, args_vs, kwargs_vs)
+            r = one_call(S, E, argspec, args_vs, kwargs_vs, vocab)
         except Exception as e:
             import traceback
             ctx.fail("oracle/implementation-raised", "building the schema or calling through it raised %s: %r; case %s"
@@ -222,13 +258,30 @@ def oracle(ctx, S, E):
     # corpus (regression witnesses) first
     for p in sorted(glob.glob(os.path.join(common.VERIF, "corpus", "C12", "*.json"))):
         w = json.load(open(p))
-        do("corpus:" + os.path.basename(p), [tuple(x) for x in w["argspec"]], w["args"], w["kwargs"])
-        want = w.get("expect")
-        if want and cases[-1] is not None and cases[-1]["r"]["outcome"] != want:
-            ctx.fail("oracle/regression-" + os.path.basename(p)[:-5], "corpus witness %s: expected %s, got %s"
-                     % (p, want, cases[-1]["r"]["outcome"]), replay=w)
+        for voc_ in (0, 1):                          # both initial vocab tables
+            do("corpus:" + os.path.basename(p), [tuple(x) for x in w["argspec"]], w["args"], w["kwargs"], voc_)
+            want = w.get("expect")
+            if want and cases[-1] is not None and cases[-1]["r"]["outcome"] != want:
+                ctx.fail("oracle/regression-" + os.path.basename(p)[:-5], "corpus witness %s (vocab table %d): expected %s, got %s"
+                         % (p, voc_, want, cases[-1]["r"]["outcome"]), replay=w)
     for tag, argspec, a, kw in FIXED:
-        do(tag, argspec, a, kw)
+        do(tag, argspec, a, kw, 0)
+        do(tag, argspec, a, kw, 1)
+    # every word of the negotiated vocabulary under byte-string limits below / at / above its table index and its length
+    words = S.vocab_words(1)
+    for i, wd in enumerate(words):
+        for lim in sorted({len(wd), max(len(wd), i) , max(len(wd), i - 1), 20, 10}):
+            if lim >= len(wd):
+                do("vocab-word", [("a", ["bytes", lim, 0], False), ("b", ["list", ["bytes", lim, 0], 30, 0], True)],
+                   [["b", list(wd)]], [["b", ["l", [["b", list(wd)], ["b", [120]]]]]], 1)
+    do("vocab-text", [("a", ["text", 4, 0], False), ("b", ["dict", ["bytes", 8, 0], ["bytes", 8, 0], None], False)],
+       [["t", list(b"list")], ["d", [[["b", list(b"call")], ["b", list(b"function")]]]]], [], 1)
+    # one container object occurring twice in a call, under every container constraint kind
+    for i in range(ctx.n(160, 1500)):
+        g = S.gen_shared_call(rng)
+        if g is None:
+            continue
+        do("shared", g[0], g[1], g[2])
     # sharing inside one call: the same list passed twice (second occurrence travels as a reference)
     w = S.World(["a", "b"], [S.build(["list", ["py", "int"], None, 0])] * 2, None)
     l = [1, 2]
@@ -236,7 +289,6 @@ def oracle(ctx, S, E):
     if S.outcome_of(res)[0] != "ok" or len(w.target.calls) != 1:
         ctx.fail("oracle/shared-argument-rejected", "m(l, l) with one list object was not delivered: %r" % (S.outcome_of(res),),
                  replay=dict(args="l=[1,2]; m(l,l)"))
-    rng = ctx.rng
     n = ctx.n(420, 6000)
     for i in range(n):
         nargs = rng.choice([1, 1, 1, 2, 3])
@@ -336,6 +388,19 @@ def differential(ctx, S, E):
     return dict(obj=obj_cases, tok=tok_cases, ints=int_cases)
 
 
+def canon_keep_sh(S, vs):
+    """canonical order of the tree value, keeping the sharing marks (shared objects sit in lists/tuples/arguments or in
+    single-entry dicts only, so canonicalising the other containers does not move them)"""
+    k = vs[0]
+    if k == "sh":
+        return ["sh", vs[1], canon_keep_sh(S, vs[2])]
+    if k in ("l", "T"):
+        return [k, [canon_keep_sh(S, x) for x in vs[1]]]
+    if k == "d" and len(vs[1]) == 1:
+        return ["d", [[canon_keep_sh(S, vs[1][0][0]), canon_keep_sh(S, vs[1][0][1])]]]
+    return S.canon_vs(vs)
+
+
 def correspond(ctx, S, cases, diff):
     nbad = 0
 
@@ -351,10 +416,26 @@ def correspond(ctx, S, cases, diff):
         for c in chunk:
             a = coq_list([S.to_obj(S.canon_vs(v)) for v in c["args"]])
             kw = coq_list(["(%d, %s)" % (NAMES.index(n) + 1, S.to_obj(S.canon_vs(v))) for n, v in c["kwargs"]])
-            rows.append("(%s, %s, %s)" % (c["r"]["ms"], a, kw))
-        body = EQB + "Definition cases : list (mschema * list obj * list (Z * obj)) := " + coq_list(rows) + ".\n" + """
-Eval vm_compute in map (fun x => let '(ms, a, kw) := x in
-   match send_call ms a kw with None => 9 | Some (p, k) => ccode (recv_call ms p k) a kw end) cases.
+            shared = any(S.has_sharing(v) for v in c["args"]) or any(S.has_sharing(v) for _, v in c["kwargs"])
+            pw = kwv = "[]"
+            if shared:
+                # the wire the real sender produces: repeats of one object are references (slicing order: positional
+                # arguments, then keywords by name); values are written in canonical order, as in `a`
+                voc = S.vocab_words(c["r"]["vocab"]) if c["r"]["vocab"] else None
+                seen = set()
+                pw = coq_list([S.to_wobj(S.slice_vs(canon_keep_sh(S, v), voc, seen)) for v in c["args"]])
+                kwv = coq_list(["(%d, %s)" % (NAMES.index(n) + 1, S.to_wobj(S.slice_vs(canon_keep_sh(S, v), voc, seen)))
+                                for n, v in c["kwargs"]])
+            rows.append("(%s, %s, %s, vocab_table %d, %s, %s, %s)" % (c["r"]["ms"], a, kw, c["r"]["vocab"],
+                                                                  "true" if shared else "false", pw, kwv))
+        body = EQB + "Definition cases : list (mschema * list obj * list (Z * obj) * list (list Z) * bool * list wobj * list (Z * wobj)) := " + \
+            coq_list(rows) + ".\n" + """
+Eval vm_compute in map (fun x => let '(ms, a, kw, voc, shared, p, k) := x in
+   match checkAllArgs ms a kw return Z with
+   | Exc _ => 9
+   | Ok _ => if (shared : bool) then (if ser_args voc a kw p k then ccode (recv_call ms p k) a kw else 7)
+             else match send_call voc ms a kw return Z with None => 8 | Some pk => ccode (recv_call ms (fst pk) (snd pk)) a kw end
+   end) cases.
 """
         try:
             (vals,) = ctx.coq_eval("C12_calls_%d" % (lo // 250), body, requires=REQ)
